@@ -8,11 +8,18 @@
    tags T is the timer with key (P, T, sn sz n), and a delivery carries
    kstrs key = P ++ sn sz n (the sanitized fully qualified name) and T.
 
+   Histories may close scopes (OClose): a closed scope is dropped from the
+   registry, and its metric tables cleared, by the next report pass (closing
+   the root: a final pass, then everything is dropped); the key of a timer
+   carries the epoch of its scope's tables, so the same name requested after
+   such a pass is a new timer.  The theorems hold across all of that: a Record
+   on any handle, of a closed scope or not, is delivered exactly once.
+
    Vocabulary.  A history is a list of API calls ([op]) over handles numbered
    in creation order; [run sz fl clk root ops] is the model state after the
    history on a root scope of flavour fl (plain reporter, cached reporter,
    reporter-less test scope, both a plain and a cached reporter) with root = (prefix, tags), the i-th reading of
-   the clock returning [clk i].  [records sz clk root ops] is the specification:
+   the clock returning [clk i].  [records sz fl clk root ops] is the specification:
    the list of (timer, value) pairs the history asks to be recorded, in order
    (one per Record on a valid handle, one per Stop of a timer's stopwatch, one
    per Exec), computed from the API contract alone.  [delivered fl s acc] says
@@ -39,13 +46,13 @@ Open Scope Z_scope.
 Theorem C10_record_once_sync :
   forall sz fl clk root,
   (forall ops pre post, ops = pre ++ post ->
-     delivered fl (run sz fl clk root pre) (records sz clk root pre)) /\
+     delivered fl (run sz fl clk root pre) (records sz fl clk root pre)) /\
   (forall pre t d oi o,
      nth_error (thand (run sz fl clk root pre)) t = Some oi ->
      nth_error (timers (run sz fl clk root pre)) oi = Some o ->
      delivered fl (step sz fl clk (run sz fl clk root pre) (ORecord t d))
-               (records sz clk root pre ++ [(tkey o, d)])) /\
-  (forall pre, delivered fl (step sz fl clk (run sz fl clk root pre) OPass) (records sz clk root pre)).
+               (records sz fl clk root pre ++ [(tkey o, d)])) /\
+  (forall pre, delivered fl (step sz fl clk (run sz fl clk root pre) OPass) (records sz fl clk root pre)).
 Proof.
   intros sz fl clk root. split; [|split].
   - intros ops pre post _. exact (record_once_sync sz fl clk root pre).
@@ -61,7 +68,7 @@ Theorem C10_timer_identity : forall sz fl clk root pre i n sc,
   nth_error (scopes (run sz fl clk root pre)) i = Some sc ->
   let s' := step sz fl clk (run sz fl clk root pre) (OTimer i n) in
   exists oi o, nth_error (thand s') (length (thand (run sz fl clk root pre))) = Some oi /\
-               nth_error (timers s') oi = Some o /\ tkey o = (fst sc, snd sc, sn sz n).
+               nth_error (timers s') oi = Some o /\ tkey o = mkkey sc (sn sz n) (ep_of (r_ep (sreg (run sz fl clk root pre))) sc).
 Proof. exact timer_identity. Qed.
 Print Assumptions C10_timer_identity.
 
@@ -89,7 +96,7 @@ Theorem C10_stopwatch_elapsed : forall sz fl clk root pre t mid oi o,
   nth_error (thand s0) t = Some oi -> nth_error (timers s0) oi = Some o ->
   let s1 := run sz fl clk root (pre ++ OStart t :: mid) in
   delivered fl (step sz fl clk s1 (OStop (length (sws s0))))
-            (records sz clk root (pre ++ OStart t :: mid) ++
+            (records sz fl clk root (pre ++ OStart t :: mid) ++
              [(tkey o, sat64 (clk (nclk s1) - clk (nclk s0)))]).
 Proof. exact stopwatch_elapsed. Qed.
 Print Assumptions C10_stopwatch_elapsed.
@@ -123,11 +130,11 @@ Theorem C10_exec : forall sz fl clk root pre c b ce cs ti,
   let s := run sz fl clk root pre in
   nth_error (calls s) c = Some (ce, cs, ti) ->
   let s' := step sz fl clk s (OExec c b) in
-  exists cc, nth_error (e_calls (senv_of sz clk root pre)) c = Some cc /\
+  exists cc, nth_error (e_calls (senv_of sz fl clk root pre)) c = Some cc /\
     fruns s' = fruns s ++ [(c, b)] /\
     rets s' = rets s ++ [b] /\
     nclk s' = S (S (nclk s)) /\
-    delivered fl s' (records sz clk root pre ++
+    delivered fl s' (records sz fl clk root pre ++
                      [(call_lat_key sz cc, sat64 (clk (S (nclk s)) - clk (nclk s)))]) /\
     let kx := if b then call_err_key sz cc else call_ok_key sz cc in
     pend_of s' kx = wrap64 (pend_of s kx + 1) /\
@@ -162,18 +169,18 @@ Example C10_example_record :
   let ops := [OTimer 0 ex_t; ORecord 0 5; OPass; OTimer 0 ex_t; ORecord 1 (-7); OPass] in
   tlog_plain (log (run san_id FPlain ex_clk ex_root ops)) =
     [([[112;46;116]; [104]; [120]], [5]); ([[112;46;116]; [104]; [120]], [-7])] /\
-  records san_id ex_clk ex_root ops = [(([112;46], [([104], [120])], ex_t), 5); (([112;46], [([104], [120])], ex_t), -7)] /\
+  records san_id FPlain ex_clk ex_root ops = [(([112;46], [([104], [120])], ex_t, 0%nat), 5); (([112;46], [([104], [120])], ex_t, 0%nat), -7)] /\
   tlog_cached (log (run san_id FCached ex_clk ex_root ops)) = tlog_plain (log (run san_id FPlain ex_clk ex_root ops)) /\
   tlog_cached (log (run san_id FBoth ex_clk ex_root ops)) = tlog_plain (log (run san_id FPlain ex_clk ex_root ops)) /\
   tlog_plain (log (run san_id FBoth ex_clk ex_root ops)) = [] /\
-  unrep_of (timers (run san_id FTest ex_clk ex_root ops)) ([112;46], [([104], [120])], ex_t) = [5; -7].
+  unrep_of (timers (run san_id FTest ex_clk ex_root ops)) ([112;46], [([104], [120])], ex_t, 0%nat) = [5; -7].
 Proof. vm_compute. repeat split; reflexivity. Qed.
 
 Example C10_example_stopwatch :
   let pre := [OTimer 0 ex_t] in
   let s0 := run san_id FCached ex_clk ex_root pre in
   nth_error (thand s0) 0 = Some 0%nat /\
-  nth_error (timers s0) 0 = Some (TObj ([112;46], [([104], [120])], ex_t) 0 []) /\
+  nth_error (timers s0) 0 = Some (TObj ([112;46], [([104], [120])], ex_t, 0%nat) 0 []) /\
   tlog_cached (log (step san_id FCached ex_clk (run san_id FCached ex_clk ex_root (pre ++ OStart 0 :: [OPass]))
                          (OStop (length (sws s0))))) =
     [([[112;46;116]; [104]; [120]], [250])].
@@ -202,3 +209,14 @@ Example C10_example_sanitized :
   tlog_cached (log s) = [([[115;118;99;95;114;112;99;95;108;97;116;101;110;99;121;95;95;109;115;95]], [5])] /\
   allocs (log s) = [(0, [[115;118;99;95;114;112;99;95;108;97;116;101;110;99;121;95;95;109;115;95]])].
 Proof. vm_compute. split; reflexivity. Qed.
+
+(* Close: a timer obtained from a closed scope still delivers; once a report
+   pass has dropped the scope (and cleared its tables) the same name is a new
+   timer, allocated again *)
+Example C10_example_closed_scope :
+  let ops := [OSub 0 [115]; OClose 1; OTimer 1 ex_t; ORecord 0 5; OPass; OTimer 1 ex_t; ORecord 1 6; OClose 0;
+              OTimer 1 ex_t; ORecord 2 7; OPass] in
+  let s := run san_id FCached ex_clk ([], []) ops in
+  tlog_cached (log s) = [([[115;46;116]], [5]); ([[115;46;116]], [6]); ([[115;46;116]], [7])] /\
+  map fst (allocs (log s)) = [0; 1] /\ thand s = [0%nat; 1%nat; 1%nat].
+Proof. vm_compute. repeat split; reflexivity. Qed.
